@@ -136,6 +136,43 @@ def bounded_tree_editing(seed, tier):
                         c.set_value('CLM02', '999.99')
                         if t.get_value('CLM02') == '999.99' and '999.99' not in ''.join(before):
                             fail(inp, 'C10: a copy shares segment data with its original')
+                    # copy independence, also for a single component of a composite (set() edits the composite in place)
+                    for cp in ('CLM05-1', 'HI01-2', '2400/SV101-2'):
+                        if t.get_value(cp) is None:
+                            continue
+                        c = t.copy()
+                        mine = _text(t)
+                        c.set_value(cp, 'ZZZZZ')
+                        if _text(t) != mine:
+                            fail(dict(inp, path=cp), 'C10: editing a component on a copy changed the original')
+                        if c.get_value(cp) != 'ZZZZZ':
+                            fail(dict(inp, path=cp), 'C10: set_value then get_value differ on a component')
+                        t.set_value(cp, 'YYYYY')
+                        if 'YYYYY' in ''.join(_text(c)):
+                            fail(dict(inp, path=cp), 'C10: editing a component on the original changed the copy')
+                        break
+                    # set_value/get_value address the same element, also through repeated sub loops where only a LATER instance
+                    # holds the segment: either the call is refused and nothing changes, or get_value returns the new value and
+                    # exactly one segment changed
+                    lines = list(t.select('2400'))
+                    if len(lines) >= 2 and r % 2 == 1:
+                        if lines[0].exists('REF[6R]'):
+                            lines[0].delete_node('REF[6R]')       # now only later service lines hold a REF*6R
+                        if not lines[-1].exists('REF[6R]'):
+                            lines[-1].add_segment(pyx12.segment.Segment('REF*6R*ONLYLAST', '~', '*', ':'))
+                    for sp in ('2400/REF[6R]02', '2400/SV102', '2400/DTP[472]03', 'REF[F8]02', '2400/NOPE01'):
+                        mine = _text(t)
+                        try:
+                            t.set_value(sp, 'NEWVAL')
+                        except (pyx12.errors.X12PathError, pyx12.errors.EngineError):
+                            if _text(t) != mine:
+                                fail(dict(inp, path=sp), 'C10: set_value was refused but the tree changed')
+                            continue
+                        now = _text(t)
+                        if t.get_value(sp) != 'NEWVAL':
+                            fail(dict(inp, path=sp), 'C10: set_value succeeded but get_value of the same path returns %r' % (t.get_value(sp),))
+                        if len(now) != len(mine) or len([1 for a, b in zip(mine, now) if a != b]) > 1:
+                            fail(dict(inp, path=sp), 'C10: set_value changed more than the addressed segment')
                     # add a segment: children stay sorted by map position
                     for seg_text in rnd.sample(['HCP*00*7.11', 'REF*F5*6.11', 'AMT*F5*8.5', 'NTE*ADD*note', 'DTP*454*D8*20030101'], 3):
                         try:
